@@ -94,3 +94,32 @@ Definition back_apply (m : back_map) (cwd : str) (env : environ) (q : str) : str
   | BackUnknown => q
   end.
 Definition is_back_translate (m : back_map) : bool := match m with BackTranslate => true | BackUnknown => false end.
+
+(* ---------- api.amend: the history of what was amended before (step-side state) ---------- *)
+(* The history holds what the generated HWrite statements put there for the earlier requests; a new request p is
+   dropped before it reaches the director when one of the generated HRead statements finds it in the history,
+   each comparing p in the frame the source gives it: translated (root-relative) or raw (as the step wrote it). *)
+Definition in_frame (f : frame) (cwd : str) (env : environ) (p : str) : option str :=
+  match f with
+  | FTranslated => Some (translate cwd env p translate_default_workdir)
+  | FRaw => Some p
+  | FNotPath => None
+  end.
+Definition str_in (x : str) (l : list str) : bool := existsb (str_eqb x) l.
+Definition frames_of (op : hist_op) : list frame :=
+  flat_map (fun u => match fst (snd u), op with
+                     | HRead, HRead | HWrite, HWrite => match snd (snd u) with FNotPath => [] | f => [f] end
+                     | _, _ => [] end) amend_history_uses.
+Definition nodup_frames (l : list frame) : list frame :=
+  (if existsb (fun f => match f with FTranslated => true | _ => false end) l then [FTranslated] else [])
+  ++ (if existsb (fun f => match f with FRaw => true | _ => false end) l then [FRaw] else []).
+Definition amend_history (cwd : str) (env : environ) (earlier : list str) : list str :=
+  flat_map (fun f => flat_map (fun p => match in_frame f cwd env p with Some q => [q] | None => [] end) earlier)
+           (nodup_frames (frames_of HWrite)).
+Definition amend_dropped (cwd : str) (env : environ) (earlier : list str) (p : str) : bool :=
+  existsb (fun f => match in_frame f cwd env p with
+                    | Some q => str_in q (amend_history cwd env earlier)
+                    | None => false end) (nodup_frames (frames_of HRead)).
+(* both sides of every comparison with / addition to the history are root-relative *)
+Definition amend_frames_ok : bool :=
+  forallb (fun u => match snd (snd u) with FRaw => false | _ => true end) amend_history_uses.
